@@ -61,121 +61,121 @@ def rules_for(pid):
     R = {
         "C01": [
             ("O-typestate", lambda c: RO.o_typestate(
-                c.P, c.E, ("callback after terminal", "two terminals in one call", "slot refilled")), 8),
-            ("O-who-may-invoke", lambda c: RO.o_who_may_invoke(c.P, c.E), 6),
+                c.P, c.E, ("callback after terminal", "two terminals in one call", "slot refilled")), 4),
+            ("O-who-may-invoke", lambda c: RO.o_who_may_invoke(c.P, c.E), 3),
             ("F-atomic-take", lambda c: RO.f_atomic_take(c.P, c.E), 3),
             ("F-no-guard-call", lambda c: RO.f_no_guard_call(c.P, c.E), 3),
-            ("S-gate", lambda c: RO.s_gate(c.P, c.E), 4),
-            ("S-finalize-after-terminal", lambda c: RO.s_finalize_after_terminal(c.P, c.E), 6),
+            ("S-gate", lambda c: RO.s_gate(c.P, c.E), 3),
+            ("S-finalize-after-terminal", lambda c: RO.s_finalize_after_terminal(c.P, c.E), 3),
         ],
         "C02": [
-            ("H-complete", lambda c: RH.h_complete(c.P, c.E, c.H, scope_c02), 24),
-            ("H-serial", lambda c: RH.h_serial(c.P, c.E, c.H), 48),
-            ("K-fresh-state", lambda c: RK.k_fresh_state(c.P, c.E, lambda root: not _is_combinator_root(root)), 30),
+            ("H-complete", lambda c: RH.h_complete(c.P, c.E, c.H, scope_c02), 14),
+            ("H-serial", lambda c: RH.h_serial(c.P, c.E, c.H), 28),
+            ("K-fresh-state", lambda c: RK.k_fresh_state(c.P, c.E, lambda root: not _is_combinator_root(root)), 18),
             ("D-compose", lambda c: RO.d_compose(c.P, c.E), 3),
         ],
         "C03": [
-            ("H-register-first", lambda c: RH.h_register_first(c.P, c.E, c.H), 16),
-            ("H-complete", lambda c: RH.h_complete(c.P, c.E, c.H, scope_c03), 11),
-            ("K-fresh-state", lambda c: RK.k_fresh_state(c.P, c.E, _is_combinator_root), 8),
-            ("J6-ready-set-go", lambda c: _only(RJ.j_rules(c.P, c.E), ("J6",)), 4),
+            ("H-register-first", lambda c: RH.h_register_first(c.P, c.E, c.H), 9),
+            ("H-complete", lambda c: RH.h_complete(c.P, c.E, c.H, scope_c03), 6),
+            ("K-fresh-state", lambda c: RK.k_fresh_state(c.P, c.E, _is_combinator_root), 4),
+            ("J6-ready-set-go", lambda c: _only(RJ.j_rules(c.P, c.E), ("J6",)), 3),
             ("S-fresh-serial", lambda c: RO.s_fresh_serial(c.P, c.E), 2),
             ("S-remove-and-test", lambda c: RO.s_remove_and_test(c.P, c.E), 1),
             ("D-atomic-latest", lambda c: _only(RJ.d_rules(c.P, c.E, c.H), ("D1", "D2"), ("sample", "debounce")), 2),
         ],
         "C04": [
-            ("H-error", lambda c: RH.h_error(c.P, c.E, c.H), 44),
+            ("H-error", lambda c: RH.h_error(c.P, c.E, c.H), 26),
             ("R1", lambda c: RH.r1_retry_drops_first(c.P, c.E, c.H), 3),
-            ("H-role-agreement", lambda c: RH.h_role_agreement(c.P, c.E, c.H), 40),
-            ("H-complete", lambda c: RH.h_complete(c.P, c.E, c.H, scope_c04), 5),
-            ("T-rxerror", lambda c: RH.rxerror_immutable(c.P, c.E), 6),
-            ("J-terminal", lambda c: _only(RJ.j_rules(c.P, c.E), ("J3", "J4")), 4),
+            ("H-role-agreement", lambda c: RH.h_role_agreement(c.P, c.E, c.H), 24),
+            ("H-complete", lambda c: RH.h_complete(c.P, c.E, c.H, scope_c04), 3),
+            ("T-rxerror", lambda c: RH.rxerror_immutable(c.P, c.E), 3),
+            ("J-terminal", lambda c: _only(RJ.j_rules(c.P, c.E), ("J3", "J4")), 3),
             ("K-fresh-state", lambda c: RK.k_fresh_state(c.P, c.E, lambda root: root.startswith("operators::")
-                                                        and root.split("::")[1] in RECOVERY), 5),
+                                                        and root.split("::")[1] in RECOVERY), 3),
         ],
         "C05": [
-            ("O-unsub-order", lambda c: RO.o_unsub_order(c.P, c.E), 8),
+            ("O-unsub-order", lambda c: RO.o_unsub_order(c.P, c.E), 4),
             ("S-wiring", lambda c: RO.s_wiring(c.P, c.E), 3),
-            ("SUB", lambda c: RO.sub_rules(c.P, c.E), 6),
+            ("SUB", lambda c: RO.sub_rules(c.P, c.E), 3),
             ("F-atomic-take", lambda c: RO.f_atomic_take(c.P, c.E), 3),
             ("O-typestate", lambda c: RO.o_typestate(
-                c.P, c.E, ("callback after unsubscribe", "is_subscribed not false", "slot refilled")), 8),
-            ("S-gate", lambda c: RO.s_gate(c.P, c.E), 4),
+                c.P, c.E, ("callback after unsubscribe", "is_subscribed not false", "slot refilled")), 4),
+            ("S-gate", lambda c: RO.s_gate(c.P, c.E), 3),
         ],
         "C06": [
-            ("H-early-stop", lambda c: RH.h_early_stop(c.P, c.E, c.H), 40),
+            ("H-early-stop", lambda c: RH.h_early_stop(c.P, c.E, c.H), 24),
             ("S-wiring", lambda c: RO.s_wiring(c.P, c.E), 3),
-            ("S-finalize-after-terminal", lambda c: RO.s_finalize_after_terminal(c.P, c.E), 6),
-            ("S-finalize-shape", lambda c: RO.s_finalize_shape(c.P, c.E), 4),
+            ("S-finalize-after-terminal", lambda c: RO.s_finalize_after_terminal(c.P, c.E), 3),
+            ("S-finalize-shape", lambda c: RO.s_finalize_shape(c.P, c.E), 3),
             ("R1", lambda c: RH.r1_retry_drops_first(c.P, c.E, c.H), 3),
             ("S-fresh-serial", lambda c: RO.s_fresh_serial(c.P, c.E), 2),
             ("SUB-live-gate", lambda c: RO.sub_live_gate(c.P, c.E), 1),
-            ("H-register-first", lambda c: RH.h_register_first(c.P, c.E, c.H), 16),
+            ("H-register-first", lambda c: RH.h_register_first(c.P, c.E, c.H), 9),
         ],
         "C07": [
-            ("L1", lambda c: RL.l1_reentrancy(c.P, c.E, c.H), 32),
-            ("L2", lambda c: RL.l2_leaf_locks(c.P, c.E), 12),
-            ("L4", lambda c: RL.l4_producer_polling(c.P, c.E), 6),
+            ("L1", lambda c: RL.l1_reentrancy(c.P, c.E, c.H), 19),
+            ("L2", lambda c: RL.l2_leaf_locks(c.P, c.E), 7),
+            ("L4", lambda c: RL.l4_producer_polling(c.P, c.E), 3),
             ("F-no-guard-call", lambda c: RO.f_no_guard_call(c.P, c.E), 3),
-            ("S-finalize-after-terminal", lambda c: RO.s_finalize_after_terminal(c.P, c.E), 6),
+            ("S-finalize-after-terminal", lambda c: RO.s_finalize_after_terminal(c.P, c.E), 3),
         ],
         "C08": [
-            ("Q", lambda c: RQ.q_rules(c.P, c.E), 17),
+            ("Q", lambda c: RQ.q_rules(c.P, c.E), 10),
         ],
         "C17": [
-            ("K-self-cycle", lambda c: RC17.k_self_cycle(c.P, c.E), 9),
+            ("K-self-cycle", lambda c: RC17.k_self_cycle(c.P, c.E), 5),
             ("K1", lambda c: RC17.k1_cut_after_terminal(c.P, c.E), 1),
-            ("O-typestate", lambda c: RO.o_typestate(c.P, c.E, ("callback kept after terminal",)), 8),
-            ("K5", lambda c: RC17.k5_relay_cut(c.P, c.E), 4),
+            ("O-typestate", lambda c: RO.o_typestate(c.P, c.E, ("callback kept after terminal",)), 4),
+            ("K5", lambda c: RC17.k5_relay_cut(c.P, c.E), 3),
             ("K6", lambda c: RC17.k6_connect_cycle(c.P, c.E), 2),
-            ("S-finalize-after-terminal", lambda c: RO.s_finalize_after_terminal(c.P, c.E), 6),
-            ("S-finalize-shape", lambda c: RO.s_finalize_shape(c.P, c.E), 4),
-            ("O-unsub-order", lambda c: RO.o_unsub_order(c.P, c.E), 8),
+            ("S-finalize-after-terminal", lambda c: RO.s_finalize_after_terminal(c.P, c.E), 3),
+            ("S-finalize-shape", lambda c: RO.s_finalize_shape(c.P, c.E), 3),
+            ("O-unsub-order", lambda c: RO.o_unsub_order(c.P, c.E), 4),
             ("SUB-live-gate", lambda c: RO.sub_live_gate(c.P, c.E), 1),
         ],
         "C18": [
-            ("W", lambda c: RW.w_rules(c.P, c.E), 7),
+            ("W", lambda c: RW.w_rules(c.P, c.E), 4),
         ],
         "C09": [
             ("HANDOFF", lambda c: RS.handoff_rules(c.P, c.E, c.H), 3),
-            ("ABORT-WHO", lambda c: RS.abort_who_may_call(c.P, c.E), 5),
+            ("ABORT-WHO", lambda c: RS.abort_who_may_call(c.P, c.E), 3),
             ("SUBSCRIBE-ON", lambda c: RS.subscribe_on_rule(c.P, c.E), 2),
             ("H-complete", lambda c: RH.h_complete(c.P, c.E, c.H, scope_c09), 2),
-            ("S-gate", lambda c: RO.s_gate(c.P, c.E), 4),
-            ("Q", lambda c: RQ.q_rules(c.P, c.E), 17),
+            ("S-gate", lambda c: RO.s_gate(c.P, c.E), 3),
+            ("Q", lambda c: RQ.q_rules(c.P, c.E), 10),
             ("K-fresh-state", lambda c: RK.k_fresh_state(c.P, c.E, lambda root: root.startswith("operators::")
                                                         and root.split("::")[1] in SCHED_OPS), 2),
         ],
         "C10": [
-            ("J", lambda c: RJ.j_rules(c.P, c.E), 14),
+            ("J", lambda c: RJ.j_rules(c.P, c.E), 8),
             ("D-compose", lambda c: RO.d_compose(c.P, c.E), 3),
-            ("L2", lambda c: RL.l2_leaf_locks(c.P, c.E), 12),
+            ("L2", lambda c: RL.l2_leaf_locks(c.P, c.E), 7),
         ],
         "C11": [
-            ("D", lambda c: RJ.d_rules(c.P, c.E, c.H), 4),
+            ("D", lambda c: RJ.d_rules(c.P, c.E, c.H), 3),
             ("S-remove-and-test", lambda c: RO.s_remove_and_test(c.P, c.E), 1),
             ("S-fresh-serial", lambda c: RO.s_fresh_serial(c.P, c.E), 2),
             ("F-atomic-take", lambda c: RO.f_atomic_take(c.P, c.E), 3),
         ],
         "C12": [
-            ("J", lambda c: _only(RJ.j_rules(c.P, c.E), ("J2", "J3", "J6", "J7")), 9),
+            ("J", lambda c: _only(RJ.j_rules(c.P, c.E), ("J2", "J3", "J6", "J7")), 5),
         ],
         "C13": [
-            ("P", lambda c: RJ.p_rules(c.P, c.E), 11),
-            ("J", lambda c: _only(RJ.j_rules(c.P, c.E), ("J1", "J2", "J5", "J6", "J7")), 6),
+            ("P", lambda c: RJ.p_rules(c.P, c.E), 6),
+            ("J", lambda c: _only(RJ.j_rules(c.P, c.E), ("J1", "J2", "J5", "J6", "J7")), 3),
         ],
         "C15": [
-            ("T1", lambda c: RS.t1_abort_wired(c.P, c.E), 5),
-            ("Q7-Q8", lambda c: _only(RQ.q_rules(c.P, c.E), ("Q7", "Q8")), 4),
-            ("S-finalize-shape", lambda c: RO.s_finalize_shape(c.P, c.E), 4),
-            ("L4", lambda c: RL.l4_producer_polling(c.P, c.E), 6),
+            ("T1", lambda c: RS.t1_abort_wired(c.P, c.E), 3),
+            ("Q7-Q8", lambda c: _only(RQ.q_rules(c.P, c.E), ("Q7", "Q8")), 3),
+            ("S-finalize-shape", lambda c: RO.s_finalize_shape(c.P, c.E), 3),
+            ("L4", lambda c: RL.l4_producer_polling(c.P, c.E), 3),
         ],
         "C19": [
-            ("A19b", lambda c: RJ.a19b(c.P, c.E), 4),
-            ("S-gate", lambda c: RO.s_gate(c.P, c.E), 4),
+            ("A19b", lambda c: RJ.a19b(c.P, c.E), 3),
+            ("S-gate", lambda c: RO.s_gate(c.P, c.E), 3),
         ],
         "C14": [
-            ("K-fresh-state", lambda c: RK.k_fresh_state(c.P, c.E), 48),
+            ("K-fresh-state", lambda c: RK.k_fresh_state(c.P, c.E), 28),
             ("K-fw-immutable", lambda c: RK.k_fw_immutable(c.P, c.E), 3),
         ],
     }
